@@ -252,7 +252,10 @@ def _isclose(a, b, rtol=1e-5, atol=1e-8, **kw):
     aa, bb = np.broadcast_arrays(_oarr(a), _oarr(b))
     out = np.empty(aa.shape, dtype=object)
     for i in np.ndindex(aa.shape):
-        out[i] = SBool(sx.zclose(aa[i], bb[i], rtol, atol))
+        if aa[i] is None or bb[i] is None:  # np.array(None, float) is nan, and nan is close to nothing
+            out[i] = False
+        else:
+            out[i] = SBool(sx.zclose(aa[i], bb[i], rtol, atol))
     return out if out.shape else out[()]
 
 
